@@ -59,6 +59,7 @@ class World:
         self.names = RN.Names()
         self.rules = {}            # cid -> list of rule dicts (AddMatch succeeded)
         self.issued = []
+        self.announced = {}       # name -> client the bus told it owns the name
         self.tok = 0
         for _ in range(n):
             self.connect()
@@ -77,12 +78,22 @@ class World:
         return 'tok%d' % self.tok
 
     def drain(self):
-        """New messages per live client, bus-originated traffic filtered out."""
+        """New messages per live client, bus-originated traffic filtered out (but ownership announcements noted:
+        the owner of a name is whoever the bus *told* so)."""
         out = {}
         for cid in sorted(self.clients):
             c = self.clients[cid]
             msgs = c.take() if cid in self.alive else []
+            for m in msgs:
+                if m.mtype == RM.SIGNAL and m.fields.get('interface') == BUS and m.body:
+                    if m.fields.get('member') == 'NameAcquired':
+                        self.announced[m.body[0]] = cid
+                    elif m.fields.get('member') == 'NameLost' and self.announced.get(m.body[0]) == cid:
+                        self.announced.pop(m.body[0], None)
             out[cid] = [m for m in msgs if _token_of(m)]
+        for n, cid in list(self.announced.items()):
+            if cid not in self.alive:
+                del self.announced[n]
         return out
 
 
@@ -126,13 +137,20 @@ def run_history(ctx, seed, idx):
     ctx.count('evaluations')
     order_log = {}       # (sender cid, recipient cid) -> [tokens delivered in order]
     sent_log = {}        # (sender cid, recipient cid) -> [tokens sent in order]
+    name_heavy = r.random() < 0.35       # histories that churn the ownership of one name and keep writing to it
+    names = NAMES[:1] if name_heavy else NAMES
+    menu = (['req'] * 6 + ['unicast-name'] * 4 + ['rel'] * 2 + ['disc', 'conn', 'unicast']) if name_heavy else \
+        ['unicast', 'unicast', 'unicast', 'broadcast', 'broadcast', 'req', 'rel', 'addmatch', 'disc', 'conn', 'to-bus',
+         'unicast-name']
+    if name_heavy:
+        while len(w_.alive) < 3:
+            w_.connect()
     for step in range(r.choice([6, 12, 25])):
         alive = sorted(w_.alive)
         if not alive:
             w_.connect()
             continue
-        op = r.choice(['unicast', 'unicast', 'unicast', 'broadcast', 'broadcast', 'req', 'rel', 'addmatch', 'disc', 'conn',
-                       'to-bus', 'unicast-name'])
+        op = r.choice(menu)
         a = r.choice(alive)
         ca = w_.clients[a]
         w = {'history': hist, 'unique': {c: w_.clients[c].unique for c in w_.clients}, 'alive': alive}
@@ -154,7 +172,7 @@ def run_history(ctx, seed, idx):
                 w_.drain()
             continue
         if op == 'req':
-            name = r.choice(NAMES)
+            name = r.choice(names)
             flags = r.choice([0, 1, 2, 3, 4, 6, 7])
             hist.append(['req', a, name, flags])
             code, ev, replaced = w_.names.request(a, name, flags)
@@ -168,7 +186,7 @@ def run_history(ctx, seed, idx):
             w_.drain()
             continue
         if op == 'rel':
-            name = r.choice(NAMES)
+            name = r.choice(names)
             hist.append(['rel', a, name])
             w_.names.release(a, name)
             ca.call('ReleaseName', 's', [name])
@@ -256,8 +274,16 @@ def run_history(ctx, seed, idx):
             else:
                 dest = r.choice([':1.4242', 'org.verif.Nobody'])
         elif op == 'unicast-name':
-            dest = r.choice(NAMES)
-            dest_cid = w_.names.owner(dest)
+            dest = r.choice(names)
+            w_.drain()
+            dest_cid = w_.announced.get(dest)
+            listed = w_.names.owner(dest)
+            if listed != dest_cid:
+                w['announced_owner'] = dest_cid
+                w['listed_owner'] = listed
+                ctx.report('owner-inconsistent', 'the bus told client %r it owns %s (NameAcquired) but lists client %r as '
+                           'owner' % (dest_cid, dest, listed), w, case)
+                return
         if dest:
             fields['destination'] = dest
         serial = ca.next_serial() + r.choice([0, 0, 1000])
